@@ -308,15 +308,40 @@ func run(c Case) vt.Verdict {
 			allKeys = append(allKeys, x.key)
 		}
 	}
+	if known[f.key] && inlineKnown() {
+		// every failure of the batch is an open known finding: the failing
+		// definitions are excluded (counted per definition as classes
+		// excluded-known:<key>) and the rest of the batch counts as evaluated.
+		// In replay mode, and with VERIF_C16_INLINE_KNOWN=0, the known key is
+		// returned instead and vt does the counting per batch.
+		nontrivial = false
+		bad := map[int]bool{}
+		for _, x := range fails {
+			bad[x.def] = true
+		}
+		for i, o := range outs {
+			if !bad[i] && o.Invalid == "" && o.Analysis.NonTrivial {
+				nontrivial = true
+			}
+		}
+		for _, k := range allKeys {
+			classes = append(classes, "excluded-known:"+k)
+		}
+		return vt.Verdict{OK: true, NonTrivial: nontrivial, Classes: classes}
+	}
 	return vt.Verdict{OK: false, Key: f.key, Classes: classes,
 		Msg:     fmt.Sprintf("definition %d (%s): %s", f.def, outs[f.def].Analysis.Label, f.msg),
 		History: map[string]any{"failing_keys": allKeys, "detail": f.detail, "outcomes": outs}}
 }
 
+func inlineKnown() bool {
+	return os.Getenv("VERIF_MODE") != "replay" && os.Getenv("VERIF_C16_INLINE_KNOWN") != "0"
+}
+
 func TestProp(t *testing.T) {
 	vt.Main(t, vt.Spec[Case]{
-		ID: "C16",
-		Rule: "a case is a batch of rapid-generated service definitions (8 per batch quick, 16 thorough; 1-12 methods over call-type option sets, async/per_node_arg/custom_return_type, stream flags, file-local/Empty/imported message types, 0-2 services, ordinary and hostile identifier spellings, parameters ''/paths=source_relative/dev=true), each run 3x through the working tree's plugin and compiled with protoc-gen-go's message code in one go build per batch; a definition is non-trivial if it has >= 2 methods of different call types, or an advanced option or stream flag, or an imported message type, or a name from a hostile pool; the batch is non-trivial if one of its definitions is (class nontrivial-definition counts definitions); distinct = distinct canonical JSON of the batch",
+		ID:           "C16",
+		Rule:         "a case is a batch of rapid-generated service definitions (8 per batch quick, 16 thorough; 1-12 methods over call-type option sets, async/per_node_arg/custom_return_type, stream flags, file-local/Empty/imported message types, 0-2 services, ordinary and hostile identifier spellings, parameters ''/paths=source_relative/dev=true), each run 3x through the working tree's plugin and compiled with protoc-gen-go's message code in one go build per batch; a definition is non-trivial if it has >= 2 methods of different call types, or an advanced option or stream flag, or an imported message type, or a name from a hostile pool; the batch is non-trivial if one of its definitions is (class nontrivial-definition counts definitions); distinct = distinct canonical JSON of the batch",
 		Gen:          genCase,
 		Run:          run,
 		TrackCurrent: true,
